@@ -136,11 +136,17 @@ func TestVerifReplay(t *testing.T) {
 
         def run(e, n=n, w=w, nb=nb):
             s = sym_bytes(e, 's', nb)
-            outo = e.new_obj([0] * n, ('array', 'int', n))
-            out = e.call_outcome(NAF, [Slice(outo, (), 0, n, n), e.new_slice(s), n, w])
+            # the digit buffer is longer than n (the function has its own n parameter): entries beyond n-1 belong to the caller
+            outo = e.new_obj([0] * (n + 3), ('array', 'int', n + 3))
+            out = e.call_outcome(NAF, [Slice(outo, (), 0, n + 3, n + 3), e.new_slice(s), n, w])
             if out.kind != 'return':
                 return ('cex', 'panic: ' + out.panic.msg, None, s)
-            digs = e.heap[outo][0]
+            spare = e.heap[outo][0][n:]
+            if not all(isinstance(force(x), int) and force(x) == 0 for x in spare):
+                vsp = e.prove(z3.And(*[tobv(x, 64) == 0 for x in spare]))
+                if vsp[0] != 'proved':
+                    return (vsp[0], 'digits are written beyond position n-1 of a longer buffer', vsp[1], s)
+            digs = e.heap[outo][0][:n]
             S = z3.ZeroExt(64 - 8 * nb, bytes_to_bv(s))
             tot = z3.BitVecVal(0, 64)
             conds = []
@@ -175,7 +181,14 @@ func TestVerifReplay(t *testing.T) {
 		if d != want[i] { t.Fatalf("digit %%d = %%d, reference %%d (out=%%v)", i, d, want[i], out) }
 		sum += d << uint(i)
 	}
-}''' % (n, go_bytes(sv), n, w, ','.join(map(str, want)))
+	// the same call with a longer digit buffer: positions n.. belong to the caller and the first n digits must not change
+	long := make([]int, %d)
+	DecomposeNAF(long, %s, %d, %d)
+	for i := range long {
+		if i < len(want) && long[i] != want[i] { t.Fatalf("longer buffer: digit %%d = %%d, reference %%d", i, long[i], want[i]) }
+		if i >= len(want) && long[i] != 0 { t.Fatalf("longer buffer: position %%d beyond n-1 written (%%d)", i, long[i]) }
+	}
+}''' % (n, go_bytes(sv), n, w, ','.join(map(str, want)), n + 3, go_bytes(sv), n, w)
         return ck.go_test('utils', src, name=name)
     if nbad:
         cex = [b for b in nbad if b[2][0] == 'cex']
